@@ -136,4 +136,258 @@ theorem drain_produceRun {r : Run} (hwf : WF r.p) : drain (produceRun r) = drain
     conv => rhs; unfold drainAux
     simp [produce_eq hp hargs]
 
+/-! ### runs: one earlier `produce` does not change what later bytes yield -/
+
+/-- what `handleError` does after the queue was dequeued -/
+def afterDrain (d : Run) : Run :=
+  match takeError d.p with
+  | (some e, p) => { p := p, out := d.out ++ [.error e d.p.line d.p.column] }
+  | (none, p) => { d with p := p }
+
+theorem handleError_of_error {r : Run} (h : r.p.error.isSome = true) : handleError r = afterDrain (drain r) := by
+  unfold handleError afterDrain
+  simp only [h, if_true]
+  rfl
+
+theorem handleError_of_ok {r : Run} (h : r.p.error.isSome = false) : handleError r = r := by
+  unfold handleError
+  simp [h]
+
+/-- `b` is `a`, or `a` after one `parser/produce` -/
+def Rel (a b : Run) : Prop := b = a ∨ (WF a.p ∧ 1 ≤ a.p.pending ∧ b = produceRun a)
+
+theorem feedByte_rel (scan : List B → Option String) (a b : Run) (c : B) (h : Rel a b) :
+    Rel (feedByte scan a c) (feedByte scan b c) := by
+  rcases h with h | ⟨hwf, hp, hb⟩
+  · subst h; exact Or.inl rfl
+  · obtain ⟨A, z, hargs⟩ := args_concat hwf hp
+    rw [produceRun_eq hp hargs] at hb
+    subst hb
+    obtain ⟨hcomm, hsim⟩ := consume_dropQ scan a.p c A z hwf hp hargs
+    obtain ⟨A', hA'⟩ := hsim.bottom
+    have hp' : 1 ≤ (consume scan a.p c).pending := Nat.le_trans hp hsim.mono
+    have hpr : produceRun { a with p := consume scan a.p c } =
+        { p := dropQ (consume scan a.p c), out := a.out ++ [.value (unwrap1 z)] } := produceRun_eq (r := { a with p := consume scan a.p c }) hp' hA'
+    unfold feedByte
+    simp only [hcomm]
+    rw [← hpr]
+    cases he : (consume scan a.p c).error.isSome with
+    | true =>
+      left
+      have he2 : (produceRun { a with p := consume scan a.p c }).p.error.isSome = true := by
+        rw [hpr]; exact he
+      rw [handleError_of_error he2, handleError_of_error (r := { a with p := consume scan a.p c }) he,
+        drain_produceRun (r := { a with p := consume scan a.p c }) hsim.wf]
+    | false =>
+      right
+      have he2 : (produceRun { a with p := consume scan a.p c }).p.error.isSome = false := by
+        rw [hpr]; exact he
+      rw [handleError_of_ok he2, handleError_of_ok (r := { a with p := consume scan a.p c }) he]
+      exact ⟨hsim.wf, hp', rfl⟩
+
+theorem feed_rel (scan : List B → Option String) (bs : List B) : ∀ a b : Run, Rel a b → Rel (feed scan a bs) (feed scan b bs) := by
+  induction bs with
+  | nil => intro a b h; exact h
+  | cons c cs ih => intro a b h; exact ih _ _ (feedByte_rel scan a b c h)
+
+theorem events_rel {a b : Run} (h : Rel a b) : b.events = a.events := by
+  rcases h with h | ⟨hwf, _, hb⟩
+  · rw [h]
+  · rw [hb]; unfold Run.events; rw [drain_produceRun hwf]
+
+/-- one `parser/produce` before any further bytes: every value and error the client eventually sees is the same -/
+theorem produce_then_feed (scan : List B → Option String) (r : Run) (bs : List B) (hwf : WF r.p) :
+    (feed scan (produceRun r) bs).events = (feed scan r bs).events := by
+  apply events_rel
+  apply feed_rel
+  by_cases h0 : r.p.pending = 0
+  · left; exact produceRun_empty h0
+  · right; exact ⟨hwf, by omega, rfl⟩
+
+/-! ### well-formedness is an invariant of `feed` -/
+
+def incRoot : List Frame → List Frame
+  | [] => []
+  | [r] => [{ r with argn := r.argn + 1 }]
+  | f :: g :: l => f :: incRoot (g :: l)
+
+theorem incRoot_ne_nil : ∀ {l : List Frame}, l ≠ [] → incRoot l ≠ []
+  | [], h => absurd rfl h
+  | [_], _ => by simp [incRoot]
+  | _ :: _ :: _, _ => by simp [incRoot]
+
+theorem decRoot_incRoot : ∀ l : List Frame, decRoot (incRoot l) = l
+  | [] => rfl
+  | [r] => by simp [incRoot, decRoot]
+  | f :: g :: l => by
+    rw [incRoot, decRoot_cons (incRoot_ne_nil (by simp)), decRoot_incRoot (g :: l)]
+
+theorem okFrames_incRoot : ∀ l : List Frame, okFrames (incRoot l) = okFrames l
+  | [] => rfl
+  | [r] => by simp [incRoot, okFrames, isCont]
+  | f :: g :: l => by
+    rw [incRoot, okFrames_cons (incRoot_ne_nil (by simp)), okFrames_incRoot (g :: l)]; rfl
+
+theorem inner_incRoot : ∀ l : List Frame, inner (incRoot l) = inner l
+  | [] => rfl
+  | [r] => rfl
+  | f :: g :: l => by
+    rw [incRoot, inner_cons (incRoot_ne_nil (by simp)), inner_incRoot (g :: l)]; rfl
+
+theorem rootArgn_incRoot : ∀ l : List Frame, l ≠ [] → rootArgn (incRoot l) = rootArgn l + 1
+  | [], h => absurd rfl h
+  | [r], _ => rfl
+  | f :: g :: l, _ => by
+    rw [incRoot, rootArgn_cons (incRoot_ne_nil (by simp)), rootArgn_incRoot (g :: l) (by simp)]; rfl
+
+/-- the parser with one more (dummy) value at the bottom of the queue -/
+def addQ (p : Parser) : Parser :=
+  { p with args := p.args ++ [Value.nil], pending := p.pending + 1, states := incRoot p.states }
+
+theorem WF_addQ {p : Parser} (h : WF p) : WF (addQ p) := by
+  refine ⟨?_, ?_, ?_⟩
+  · simp only [addQ, okFrames_incRoot]; exact h.ok
+  · simp only [addQ, inner_incRoot, List.length_append, List.length_cons, List.length_nil]; have := h.sum; omega
+  · simp only [addQ]; rw [rootArgn_incRoot _ (okFrames_ne_nil h.ok), h.rootn]
+
+theorem dropQ_addQ (p : Parser) : dropQ (addQ p) = p := by
+  obtain ⟨args, err, states, buf, line, column, pending, lb, flag⟩ := p
+  simp [dropQ, addQ, decRoot_incRoot]
+
+theorem WF_dropQ {p : Parser} (h : WF p) (hp : 1 ≤ p.pending) : WF (dropQ p) := by
+  refine ⟨?_, ?_, ?_⟩
+  · simp only [dropQ, okFrames_decRoot]; exact h.ok
+  · simp only [dropQ, inner_decRoot, List.length_dropLast]; have := h.sum; omega
+  · simp only [dropQ, rootArgn_decRoot, h.rootn]
+
+theorem WF_consume (scan : List B → Option String) {p : Parser} (c : B) (h : WF p) : WF (consume scan p c) := by
+  have hq := WF_addQ h
+  have hs := consume_dropQ scan (addQ p) c p.args Value.nil hq (by simp [addQ]) rfl
+  rw [dropQ_addQ] at hs
+  rw [hs.1]
+  exact WF_dropQ hs.2.wf (Nat.le_trans (by simp [addQ]) hs.2.mono)
+
+theorem WF_produce {p : Parser} (h : WF p) : WF (produce p).2 := by
+  by_cases h0 : p.pending = 0
+  · simp [produce, produceWrapped, h0]; exact h
+  · have hp : 1 ≤ p.pending := by omega
+    obtain ⟨A, z, hargs⟩ := args_concat h hp
+    rw [produce_eq hp hargs]
+    exact WF_dropQ h hp
+
+theorem WF_drainAux : ∀ (n : Nat) (p : Parser) (acc : List Event), WF p → WF (drainAux n p acc).1 := by
+  intro n
+  induction n with
+  | zero => intro p acc h; exact h
+  | succ k ih =>
+    intro p acc h
+    unfold drainAux
+    have hp := WF_produce h
+    cases hpr : produce p with
+    | mk ov p' =>
+      rw [hpr] at hp
+      cases ov with
+      | none => exact hp
+      | some v => exact ih p' _ hp
+
+theorem okFrames_last : ∀ {l : List Frame}, okFrames l = true →
+    ∃ r, l.drop (l.length - 1) = [r] ∧ r.consumer = .root ∧ isCont r = true
+  | [], h => by simp [okFrames] at h
+  | [r], h => ⟨r, by simp, by simpa [okFrames] using h⟩
+  | f :: g :: l, h => by
+    rw [okFrames_cons (by simp)] at h
+    simp only [Bool.and_eq_true] at h
+    obtain ⟨r, h1, h2⟩ := okFrames_last h.2
+    refine ⟨r, ?_, h2⟩
+    have : (f :: g :: l).length - 1 = ((g :: l).length - 1) + 1 := by simp
+    rw [this, List.drop_succ_cons]; exact h1
+
+/-- regenerated obligation (`janet_parser_flush` resets `states[0].argn`): flushing keeps the parser well formed -/
+theorem WF_flush {p : Parser} (h : WF p) : WF (flush p) := by
+  have hf : flushResetsRootArgn = true := by decide
+  obtain ⟨r, h1, h2, h3⟩ := okFrames_last h.ok
+  unfold flush
+  simp only [hf, if_true, h1, List.map_cons, List.map_nil]
+  refine ⟨?_, ?_, ?_⟩
+  · simp [okFrames, isCont, h2] ; simpa [isCont] using h3
+  · simp [inner]
+  · simp [rootArgn]
+
+theorem WF_takeError {p : Parser} (h : WF p) : WF (takeError p).2 := by
+  unfold takeError
+  cases he : p.error with
+  | none => exact h
+  | some e => exact WF_flush (p := { p with error := none, flag := p.flag &&& (0xFFFFFFFF ^^^ JANET_PARSER_GENERATED_ERROR) }) ⟨h.ok, h.sum, h.rootn⟩
+
+theorem WF_handleError {r : Run} (h : WF r.p) : WF (handleError r).p := by
+  cases he : r.p.error.isSome with
+  | false => rw [handleError_of_ok he]; exact h
+  | true =>
+    rw [handleError_of_error he]
+    have hd : WF (drain r).p := by unfold drain; exact WF_drainAux _ _ _ h
+    have ht := WF_takeError hd
+    unfold afterDrain
+    cases hte : takeError (drain r).p with
+    | mk oe p' =>
+      rw [hte] at ht
+      cases oe <;> exact ht
+
+theorem WF_feedByte (scan : List B → Option String) {r : Run} (c : B) (h : WF r.p) : WF (feedByte scan r c).p := by
+  unfold feedByte
+  exact WF_handleError (r := { r with p := consume scan r.p c }) (WF_consume scan c h)
+
+theorem WF_feed (scan : List B → Option String) (bs : List B) : ∀ {r : Run}, WF r.p → WF (feed scan r bs).p := by
+  induction bs with
+  | nil => intro r h; exact h
+  | cons c cs ih => intro r h; exact ih (WF_feedByte scan c h)
+
+theorem WF_produceRun {r : Run} (h : WF r.p) : WF (produceRun r).p := by
+  have := WF_produce h
+  unfold produceRun
+  cases hpr : produce r.p with
+  | mk ov p' =>
+    rw [hpr] at this
+    cases ov <;> exact this
+
+theorem WF_init : WF Parser.init := by
+  refine ⟨?_, ?_, ?_⟩ <;> simp [Parser.init, okFrames, inner, rootArgn, isCont] <;> decide
+
+/-! ### schedules -/
+
+/-- what a client may do between bytes -/
+inductive Op where
+  | byte (c : B)          -- one byte through consume + the error protocol
+  | produce               -- `parser/produce`
+  | query                 -- `parser/status`, `parser/has-more`, `parser/where`, `parser/state`: functions of the parser
+  deriving Inhabited
+
+def runOp (scan : List B → Option String) (r : Run) : Op → Run
+  | .byte c => feedByte scan r c
+  | .produce => produceRun r
+  | .query => r
+
+def bytesOf : List Op → List B
+  | [] => []
+  | .byte c :: ops => c :: bytesOf ops
+  | _ :: ops => bytesOf ops
+
+theorem schedule_pure (scan : List B → Option String) (ops : List Op) : ∀ r : Run, WF r.p →
+    (ops.foldl (runOp scan) r).events = (feed scan r (bytesOf ops)).events := by
+  induction ops with
+  | nil => intro r _; rfl
+  | cons op ops ih =>
+    intro r h
+    cases op with
+    | byte c =>
+      simp only [List.foldl_cons, runOp, bytesOf]
+      rw [ih _ (WF_feedByte scan c h)]
+      rfl
+    | produce =>
+      simp only [List.foldl_cons, runOp, bytesOf]
+      rw [ih _ (WF_produceRun h)]
+      exact produce_then_feed scan r (bytesOf ops) h
+    | query =>
+      simp only [List.foldl_cons, runOp, bytesOf]
+      exact ih r h
+
 end JanetModel.Parse
